@@ -649,7 +649,8 @@ class Tracer:
             self._bind(g.target, each, q, fi, e)
             q.loop += 1
             for c in g.ifs:
-                q = self._expr(c, q, fi, depth)[0][0]
+                q, cv = self._expr(c, q, fi, depth)[0]
+                q.facts.append(('comprehension-filter: ' + cv.text, True))
         elts = [e.key, e.value] if isinstance(e, ast.DictComp) else [e.elt]
         vals = []
         for el in elts:
